@@ -652,3 +652,17 @@ Example ex_display_prefix :
   | _, _ => False
   end.
 Proof. vm_compute. split; reflexivity. Qed.
+
+(** The restriction to entries outside [touched] cannot be dropped: an option that the positional
+    overrides loses its entry as soon as the tail gives the positional a value (documented semantics
+    of [overrides_with]; corpus/C05/escape-main.r2.cases replays the line on the implementation). *)
+Definition y_pos : arg := x_pos <| a_overrides := [[111]] |>.
+Definition y_c0 : cmd := (cmd_new [112]) <| c_args := [x_opt; y_pos] |> <| c_bin_name := Some [112] |>.
+Theorem prefix_unrestricted_refuted : exists c0 pre t m1 m2 y,
+  esc_class c0 = true /\ do_parse c0 (pre ++ dashdash :: t) = OOk m1 /\ do_parse c0 (pre ++ dashdash :: []) = OOk m2 /\
+  fm_get y (ms_args m2) <> None /\ fm_get y (ms_args m1) = None.
+Proof.
+  exists y_c0, [w_opt; w_v], [w_x]. eexists. eexists. exists [111].
+  split; [vm_compute; reflexivity|]. split; [vm_compute; reflexivity|]. split; [vm_compute; reflexivity|].
+  split; [vm_compute; discriminate|vm_compute; reflexivity].
+Qed.
